@@ -24,6 +24,7 @@ type PropConfig struct {
 	Targets   []Target `json:"targets"`
 	Lemmas    []string `json:"lemmas"`
 	NotDecided []string `json:"not_decided"`
+	QuickCases []string `json:"quick_case_suffixes"` // quick tier: of the VCs produced by case splits only those whose name ends in one of these (thorough: all)
 	Extra     []string `json:"extra_assumptions"`
 }
 
@@ -99,6 +100,7 @@ func cmdCheck(args []string) int {
 	}
 
 	var obls []*Obligation
+	skippedCases := 0
 	var vcs []*VC
 	var funcs []string
 	var genErrs []string
@@ -137,6 +139,18 @@ func cmdCheck(args []string) int {
 			for _, vc := range fvcs {
 				if *caseF != "" && !strings.Contains(vc.Name, *caseF) {
 					continue
+				}
+				if *tier == "quick" && len(cfg.QuickCases) > 0 && strings.Contains(vc.Name, "#") {
+					keep := false
+					for _, sfx := range cfg.QuickCases {
+						if strings.HasSuffix(vc.Name, sfx) {
+							keep = true
+						}
+					}
+					if !keep {
+						skippedCases++
+						continue
+					}
 				}
 				vcs = append(vcs, vc)
 				for _, o := range vc.obls {
@@ -205,6 +219,10 @@ func cmdCheck(args []string) int {
 	d.run(obls)
 	solveS := time.Since(solveStart).Seconds()
 
+	if skippedCases > 0 {
+		cfg.Extra = append(cfg.Extra, fmt.Sprintf("QUICK TIER SUBSET: %d of the case-split VCs were not generated in this run (suffixes kept: %v); the thorough tier runs all cases", skippedCases, cfg.QuickCases))
+		fmt.Printf("govc: quick tier ran a subset of the split cases (%d skipped); thorough runs all\n", skippedCases)
+	}
 	return report(eng, &cfg, *tier, seed, *verif, *repo, funcs, vcs, obls, *dump, *noEvidence, loadS, genS, solveS, time.Since(start).Seconds())
 }
 
